@@ -374,7 +374,10 @@ inline Case from_bytes(const uint8_t* data, size_t size, int forced_kind = -1)
     g.cap      = 1 + (b2 % 8);
     if (b2 >= 240)
         g.cap = (b2 & 1) ? 33 : 16;
-    c.uni      = static_cast<int>(g.cap) + 1 + (r.u8() % 3);
+    uint8_t b3 = r.u8();
+    c.uni      = static_cast<int>(g.cap) + 1 + (b3 % 3);
+    if ((g.kind == bx::K_UTMAP || g.kind == bx::K_UTSET) && b3 >= 224)
+        c.uni = 70 + (b3 % 32) * 2; // large universes for the unbounded containers
     g.mlf      = mlf_from_byte(r.u8());
     g.ttl_ms   = ttl_from_byte(r.u8());
     uint8_t b6 = r.u8();
@@ -434,5 +437,81 @@ inline Case from_bytes(const uint8_t* data, size_t size, int forced_kind = -1)
     }
     normalize(c);
     return c;
+}
+// inverse of from_bytes for everything the byte format can express (seed corpus for libFuzzer)
+inline std::vector<uint8_t> to_bytes(const Case& c)
+{
+    std::vector<uint8_t> b;
+    const auto&          g = c.cfg;
+    b.push_back(static_cast<uint8_t>(g.kind));
+    b.push_back(static_cast<uint8_t>((g.sync ? 1 : 0) | ((g.types & 1) << 1)));
+    b.push_back(static_cast<uint8_t>(g.cap >= 1 && g.cap <= 8 ? g.cap - 1 : (g.cap == 33 ? 241 : 240)));
+    int extra = c.uni - static_cast<int>(g.cap) - 1;
+    b.push_back(static_cast<uint8_t>(extra < 0 ? 0 : extra > 2 ? 2 : extra));
+    {
+        static const float t[] = {1.0f, 0.01f, 0.1f, 0.5f, 2.0f, 7.5f, 100.0f, 1e6f};
+        uint8_t            m   = 0;
+        for (uint8_t i = 0; i < 8; ++i)
+            if (t[i] == g.mlf)
+                m = i;
+        b.push_back(m);
+    }
+    b.push_back(ttl_to_byte(g.ttl_ms));
+    {
+        uint8_t tk = g.tick_ms <= 1 ? 0 : g.tick_ms <= 2 ? 1 : g.tick_ms <= 5 ? 2 : 3;
+        static const int rn[] = {1, 0, 1, 1, 3, 1};
+        static const int rd[] = {2, 1, 8, 4, 4, 1};
+        uint8_t          ri   = 0;
+        for (uint8_t i = 0; i < 6; ++i)
+            if (rn[i] == g.ratio_num && rd[i] == g.ratio_den)
+                ri = i;
+        b.push_back(static_cast<uint8_t>(tk | (ri << 2)));
+    }
+    b.push_back(static_cast<uint8_t>(g.seed & 0xff));
+    b.push_back(static_cast<uint8_t>((g.seed >> 8) & 0xff));
+    for (const auto& o : c.ops)
+    {
+        uint8_t h = static_cast<uint8_t>(o.code), a = 0;
+        switch (o.code)
+        {
+            case O_INS:
+                h = static_cast<uint8_t>(h | (ttl_to_byte(o.ttl_ms) << 4));
+                a = static_cast<uint8_t>((o.k & 31) | ((o.allow - 1) << 5));
+                break;
+            case O_INSR:
+            case O_ERAR:
+            case O_FINDR:
+            case O_FINDRF:
+            {
+                size_t n = o.elems.size() > 8 ? 8 : o.elems.size();
+                h        = static_cast<uint8_t>(h | (n << 4));
+                a        = static_cast<uint8_t>(((o.allow - 1) << 5) | ((o.flavour & 3) << 3) | ((o.peek ? 1 : 0) << 2));
+                b.push_back(h);
+                b.push_back(a);
+                for (size_t i = 0; i < n; ++i)
+                    b.push_back(static_cast<uint8_t>((o.elems[i].k & 31) | (ttl_to_byte(o.elems[i].ttl_ms) << 5)));
+                continue;
+            }
+            case O_ERA: a = static_cast<uint8_t>(o.k & 31); break;
+            case O_FIND:
+            case O_FINDUC: a = static_cast<uint8_t>((o.k & 31) | ((o.peek ? 1 : 0) << 5)); break;
+            case O_UTTL: a = ttl_to_byte(o.ttl_ms); break;
+            case O_ADV:
+            {
+                static const int64_t t[] = {0, 1, 999'999, 1'000'000, 1'000'001, 2'000'000, 3'000'000, 5'000'000,
+                                            8'000'000, 4'999'999, 5'000'001, 10'000'000, 50'000'000, 1'000'000'000, 7, 2'999'999};
+                for (uint8_t i = 0; i < 16; ++i)
+                    if (t[i] == o.dt_ns)
+                        a = i;
+                break;
+            }
+            case O_ADVTO: a = static_cast<uint8_t>((o.j & 15) | ((o.off + 1) << 4)); break;
+            case O_SCAN: a = static_cast<uint8_t>(o.mode); break;
+            default: break;
+        }
+        b.push_back(h);
+        b.push_back(a);
+    }
+    return b;
 }
 } // namespace cs
